@@ -267,6 +267,14 @@ def check_keys(ctx, names):
             ctx.disagree({"kind": "key", "v": v}, mk[v], pykey(v), where="spec: key/conv of the Coq side vs the harness")
 
 
+def check_accepts(ctx, names):
+    """the harness's well-formed names must lie inside the domain `accepts` of the theorems"""
+    for v, ln in zip(names, ctx.model(["accepts\t" + enc(v) for v in names])):
+        if wellformed(v) and ln != "1":
+            ctx.disagree({"kind": "accepts", "v": v}, ln, "wellformed", where="spec: wellformed name outside accepts")
+        ctx.bump("name/" + ("wellformed" if wellformed(v) else "accepted-only" if ln == "1" else "outside-accepts"))
+
+
 def check_pair(ctx, a, b, m_ab, m_ba, i, stream):
     """i = [int ab, strict ab, int ba, strict ba, int aa, strict aa] from the implementation"""
     case = {"kind": "pair", "a": a, "b": b}
@@ -497,6 +505,8 @@ def setup(ctx):
 def run(ctx):
     setup(ctx)
     ctx.check_theorems()
+    if ctx.tier == "thorough":
+        ctx.coqchk(["Eupsv.Props.C10"])
     rng = ctx.rng
     # corpus first
     run_cases(ctx, corpus_cases(), "corpus")
@@ -551,6 +561,7 @@ def run(ctx):
 
     # arbitrary strings
     rp = [gen_random_pair(rng) for _ in range(ctx.size(30000, 600000))]
+    check_accepts(ctx, sorted({x for p in rp for x in p}))
     for k in range(0, len(rp), 50000):
         run_pairs(ctx, rp[k:k + 50000], "random")
 
